@@ -106,6 +106,10 @@ def check_app(case, ctx):
         raise Violation("C12/%s/raised" % app, "%s raised %r" % (what, got))
     if got != want:
         raise Violation("C12/%s/value-differs" % app, "%s = %r, BIP85 defines %r (path %s)" % (what, got, want, R.fmt_path(want_path)))
+    if not case.get("_sibling"):
+        # a master with the same private key and another chain code, in the same process
+        c2 = bytes([case["c"][0] ^ 0x80]) + case["c"][1:]
+        check_app(dict(case, c=c2, _sibling=True), ctx)
     if log is not None:
         if len(log) != 1 or len(log[0]) != len(want_path):
             ctx.count("derive_path-not-observed-as-one-call")
@@ -264,6 +268,54 @@ def check_lz(case, ctx):
         check_app({"app": app, "param": param, "index": found, "k": k, "c": c, "route": route}, ctx)
 
 
+# ------------------------------------------------------------------------------------ one object, several threads
+def gen_threads(tier):
+    def mk(app, p, index):
+        params = PARAMS[app]
+        return [app, params[p % len(params)], index]
+    req = st.builds(mk, st.sampled_from(sorted(PARAMS)), st.integers(0, 1000), st.sampled_from([0, 1, 2, 3, H - 1]))
+    return st.fixed_dictionaries({
+        "k": S.scalars(), "c": S.chain_codes(), "warmup": st.lists(req, max_size=2),
+        "threads": st.lists(st.lists(req, min_size=1, max_size=2), min_size=2, max_size=3),
+        "plan": st.lists(st.tuples(st.integers(0, 2), st.integers(1, 25)), min_size=3, max_size=60)})
+
+
+def check_threads(case, ctx):
+    from vlib.sched import Scheduler
+    import btc_hd_wallet.bip85 as m85
+    import btc_hd_wallet.bip32 as m32
+    import btc_hd_wallet.wallet_utils as mwu
+    Prv, B85, BaseWallet, PaperWallet = _impl()
+    rm = R.Node.from_priv(case["k"], case["c"])
+    b = B85(master_node=Prv(key=case["k"].to_bytes(32, "big"), chain_code=case["c"]))
+    for app, param, index in case["warmup"]:
+        call(app_call, b, app, param, index)
+
+    def runner(reqs):
+        def run():
+            out = []
+            for app, param, index in reqs:
+                st_, v = call(app_call, b, app, param, index)
+                out.append(v if st_ == "ok" else ["EXC", repr(v)])
+            return out
+        return run
+    sched = Scheduler([tuple(x) for x in case["plan"]], [m85.__file__, m32.__file__, mwu.__file__])
+    results, errors = sched.run([runner(r) for r in case["threads"]])
+    ctx.count("switches", sched.switches)
+    ctx.nontrivial = sched.switches >= 2
+    for t, reqs in enumerate(case["threads"]):
+        if t in errors:
+            raise Violation("C12/threads/crashed", "thread %d raised %r" % (t, errors[t]))
+        for j, (app, param, index) in enumerate(reqs):
+            try:
+                want, _ = app_expect(rm, app, param, index)
+            except R.Invalid:
+                continue
+            if results[t][j] != want:
+                raise Violation("C12/threads/value-differs[%s]" % app, "with %d threads sharing one BIP85 object, %s(param=%r, "
+                                "index=%d) = %r, BIP85 defines %r" % (len(case["threads"]), app, param, index, results[t][j], want))
+
+
 def clauses():
     return [
         Clause("apps", check_app,
@@ -282,6 +334,11 @@ def clauses():
                enum=enum_reject, gen=gen_reject, classes=lambda c: [c["app"] + ":" + c["what"]],
                enum_desc="listed bad parameters x 3 indexes, 11 bad indexes x 5 apps x 2 parameters",
                n={"quick": 800, "thorough": 60000}, shards={"quick": 16, "thorough": 16}),
+        Clause("shared-object-threads", check_threads,
+               "2..3 threads issue 1..2 application requests each on ONE BIP85 object (after 0..2 warm-up requests) under "
+               "the deterministic line-granularity scheduler; every answer must equal independent BIP85; non-trivial = "
+               ">= 2 thread switches (measured)", gen=gen_threads,
+               n={"quick": 150, "thorough": 6000}, shards={"quick": 16, "thorough": 16}),
         Clause("paper-block", check_block,
                "PaperWallet.bip85_data(): its nine labelled entries equal BIP85 at exactly the labelled paths",
                gen=lambda tier: st.fixed_dictionaries({"seed": S.seeds(16, 64), "testnet": st.booleans()}),
